@@ -2339,10 +2339,8 @@ func (db *DB) Drop(ctx context.Context) (err error) {
 		return fmt.Errorf("sync ltx dir: %w", err)
 	}
 
-	// Remove all related files.
-	if err := db.os.Remove("DROP:DB", db.DatabasePath()); err != nil && !os.IsNotExist(err) {
-		return fmt.Errorf("delete database file: %w", err)
-	}
+	// Remove all related files. The database file goes last: a journal or WAL
+	// without its database cannot be recovered on restart.
 	if err := db.os.Remove("DROP:JOURNAL", db.JournalPath()); err != nil && !os.IsNotExist(err) {
 		return fmt.Errorf("delete journal file: %w", err)
 	}
@@ -2351,6 +2349,9 @@ func (db *DB) Drop(ctx context.Context) (err error) {
 	}
 	if err := db.os.Remove("DROP:SHM", db.SHMPath()); err != nil && !os.IsNotExist(err) {
 		return fmt.Errorf("delete shm file: %w", err)
+	}
+	if err := db.os.Remove("DROP:DB", db.DatabasePath()); err != nil && !os.IsNotExist(err) {
+		return fmt.Errorf("delete database file: %w", err)
 	}
 
 	// Reset database & WAL information.
@@ -2651,9 +2652,8 @@ func (db *DB) ApplyLTXNoLock(path string, fatalOnError bool) (retErr error) {
 		dbMode = DBModeRollback
 
 		// If the database has been deleted, ensure the local files are removed.
-		if err := db.os.Remove("APPLYLTX:DROP:DB", db.DatabasePath()); err != nil && !os.IsNotExist(err) {
-			return fmt.Errorf("delete database file: %w", err)
-		}
+		// The database file goes last: a journal or WAL without its database
+		// cannot be recovered on restart.
 		if err := db.os.Remove("APPLYLTX:DROP:JOURNAL", db.JournalPath()); err != nil && !os.IsNotExist(err) {
 			return fmt.Errorf("delete journal file: %w", err)
 		}
@@ -2662,6 +2662,9 @@ func (db *DB) ApplyLTXNoLock(path string, fatalOnError bool) (retErr error) {
 		}
 		if err := db.os.Remove("APPLYLTX:DROP:SHM", db.SHMPath()); err != nil && !os.IsNotExist(err) {
 			return fmt.Errorf("delete shm file: %w", err)
+		}
+		if err := db.os.Remove("APPLYLTX:DROP:DB", db.DatabasePath()); err != nil && !os.IsNotExist(err) {
+			return fmt.Errorf("delete database file: %w", err)
 		}
 
 		if invalidator := db.store.Invalidator; invalidator != nil {
